@@ -5,6 +5,7 @@ From ChiaV.Gen Require Import Opcodes.
 From ChiaV.Cond Require Import Model Spec Facts.
 Open Scope N_scope.
 From ChiaV.Cond Require Import Invariants Syntax Collect Rules Refine.
+From ChiaV.Cond Require Import Guards Accept Totals Final.
 From ChiaV.Props Require Import C01.
 Check C01_opcodes_are_consensus :
   [REMARK; AGG_SIG_PARENT; AGG_SIG_PUZZLE; AGG_SIG_AMOUNT; AGG_SIG_PUZZLE_AMOUNT; AGG_SIG_PARENT_AMOUNT;
@@ -50,3 +51,20 @@ Check C01_accepted_satisfies_cross_rules :
   parse_spends vk H K fl V t max_cost clvm_cost = Ok r ->
   exists ps, tree_syntax fl t = Ok ps /\ CrossRules H ps.
 Print Assumptions C01_accepted_satisfies_cross_rules.
+Check C01_accept_characterisation :
+  forall vk H K fl V t max_cost clvm_cost,
+  (exists r, parse_spends vk H K fl V t max_cost clvm_cost = Ok r) <->
+  exists ps,
+    tree_syntax fl t = Ok ps /\
+    spends_guards vk H K fl ps max_cost 0 [] (if f_limit_spends fl then Some MAX_SPENDS_PER_BLOCK else None) = true /\
+    BundleRules H ps.
+Print Assumptions C01_accept_characterisation.
+Check C01_step_guard_sound :
+  forall vk K fl st cva st',
+  apply_condition vk K fl st cva = Ok st' ->
+  aguard vk K fl (acore_of st) cva = true /\ acore_of st' = aeffect fl (acore_of st) cva.
+Print Assumptions C01_step_guard_sound.
+Check C01_step_guard_complete :
+  forall vk K fl st cva,
+  aguard vk K fl (acore_of st) cva = true -> exists st', apply_condition vk K fl st cva = Ok st'.
+Print Assumptions C01_step_guard_complete.
